@@ -132,6 +132,17 @@ def build(r):
         return lena.variables.Variable(r[1], DATA_FUNCS[r[2]], **(r[3] if len(r) > 3 else {}))
     if k == "filter":
         return lena.flow.Filter(pred(r[1]))
+    if k == "filtersel":
+        # an explicit Selector whose function raises on some values and which is told to
+        # count an exception as "not selected": total again, however the Filter is driven
+        p, mod = PREDS[r[1]], r[2]
+
+        def raising_pred(v):
+            d = data_of(v)
+            if _num(d) % mod == 0:
+                raise ValueError("predicate fails on %r" % (d,))
+            return p(d)
+        return lena.flow.Filter(lena.flow.Selector(raising_pred, raise_on_error=False))
     if k == "slice":
         return lena.flow.Slice(*r[1])
     if k == "count":
